@@ -39,7 +39,7 @@ Consume(matched) == /\ l <= Len(Trace)
 
 TInvAcq == /\ Ev.t = "inv" /\ Ev.op = "acq"
            /\ open[Ev.g] = "no"
-           /\ StartAcquire(Ev.g, Ev.c)
+           /\ StartAcquireK(Ev.g, Ev.c, Ev.k)
            /\ open' = [open EXCEPT ![Ev.g] = "acq"]
            /\ want' = [want EXCEPT ![Ev.g] = Ev.res]
 TInvRel == /\ Ev.t = "inv" /\ Ev.op = "rel"
@@ -54,6 +54,8 @@ TCancel == /\ Ev.t = "cancel"
            /\ UNCHANGED <<open, want>>
 TRetAcq == /\ Ev.t = "ret" /\ Ev.op = "acq"
            /\ open[Ev.g] = "acq" /\ st[Ev.g] = "idle" /\ res[Ev.g] = Ev.res
+           \* the error value: exactly the context's error (never the cause where they differ)
+           /\ ErrV(Ev.g) = Ev.e
            /\ open' = [open EXCEPT ![Ev.g] = "no"]
            /\ UNCHANGED <<vars, want>>
 (* a fresh semaphore (next round) *)
@@ -64,6 +66,7 @@ TNew == /\ Ev.t = "new"
         /\ calls' = [p \in Procs |-> 0]
         /\ res' = [p \in Procs |-> "none"]
         /\ acq' = 0 /\ rel' = 0
+        /\ kind' = [p \in Procs |-> CHOOSE k \in Kinds : TRUE]
         /\ open' = [p \in Procs |-> "no"]
         /\ want' = [p \in Procs |-> "none"]
 TRetRel == /\ Ev.t = "ret" /\ Ev.op = "rel"
@@ -87,7 +90,7 @@ TNext == \/ Consume(TNew \/ TInvAcq \/ TInvRel \/ TCancel \/ TRetAcq \/ TRetRel)
 TSpec == TInit /\ [][TNext]_tvars
 
 (* the specification's bound holds on every explanation of the log *)
-BoundT == HoldersBound
+BoundT == HoldersBound /\ ReturnsCtxErr
 
 Post == PrintT("HWM " \o ToString(TLCGet(1)))
 =============================================================================
